@@ -213,6 +213,7 @@ func (x *Exec) noLoops(fn *ssa.Function) bool {
 }
 
 func (x *Exec) inline(st *State, callee *ssa.Function, binds, args []*Value, k Cont) {
+	x.eng.touchBody(callee)
 	fr := &Frame{fn: callee, regs: map[ssa.Value]*Value{}, depth: st.top().depth + 1}
 	for i, p := range callee.Params {
 		if i < len(args) {
